@@ -291,6 +291,10 @@ def run(prog: Program, L: Ledger) -> None:
     L.rule("B5", "distinct particles inserted in one accepted trial get distinct label assignments")
 
     check_default_label(prog, L)
+    from . import c11
+
+    L.rule("B6", "labels and the unique-label cache used to pick fresh labels are written by set_labels only (who-may-write), so the cache cannot hide a label an atom still carries")
+    c11.check_label_writers(prog, L, "B6")
     scs = gc_scenarios(prog, 1)
     if L.tier == "thorough":
         scs += [s for s in gc_scenarios(prog, 2) if len(s.table) == 1 and s.table[0].children is None or len(s.table) == 2 and all(t.children is None for t in s.table)]
